@@ -81,6 +81,8 @@ class BCEngine(Engine):
         self.failures = 0
         self.backoff_due = None
         self.closed = False
+        self.closed_real = False  # close() really called (possibly from inside a response callback, before the model learns of it)
+        self.reentrant_close_error = None
         self.close_watch = None
         self.close_expected = False
         self.seen_attempts = 0
@@ -127,7 +129,7 @@ class BCEngine(Engine):
             return None
         op = draw(st.sampled_from(ops))
         if op == "req":
-            return ["req", draw(st.sampled_from([True, True, True, False]))]
+            return ["req", draw(st.sampled_from([True, True, True, False])), draw(st.integers(0, 11)) == 0]
         if op in ("cancel", "dup", "reuse", "reusetomb", "reply", "replyany"):
             return [op, draw(st.integers(0, 30)), draw(st.integers(0, 12))]
         if op == "conn":
@@ -234,6 +236,31 @@ class BCEngine(Engine):
                 return
             r.watch = simnet.Watch(d, w, "req%d" % r.idx)
             r.watch.silence()
+            if op == "req" and len(step) > 2 and step[2] and expect:
+                # the owner's callback closes the broker client from inside the response delivery (KafkaClient does so when a metadata
+                # response drops the answering broker): the request is complete, everything else pending fails, nothing is left half-done
+                r.cbclose = True
+                self.labels.add("close-from-response-callback-armed")
+
+                def _close_inside(res, r=r):
+                    if not self.closed_real:
+                        self.closed_real = True
+                        # the model learns of it at this very instant: this request has its answer, everything else pending is closed
+                        if r.state == "out":
+                            r.state = "ok"
+                            r.value = res
+                        self.labels.add("closed-from-response-callback")
+                        self.nt.add("closed-from-response-callback")
+                        self._model_close()
+                        try:
+                            d2 = self.bc.close()
+                            self.close_watch = simnet.Watch(d2, w, "close")
+                            self.close_watch.silence()
+                        except Exception as e:  # noqa
+                            self.reentrant_close_error = (r.idx, e)
+                    return res
+
+                d.addCallback(_close_inside)
             if self.closed:
                 r.state = "closed"
             elif self.cur is not None:
@@ -346,19 +373,10 @@ class BCEngine(Engine):
             self.addr = ADDRS[step[1] % len(ADDRS)]
             self.bc.updateMetadata(BrokerMetadata(1, self.addr[0], self.addr[1]))
         elif op == "close":
-            if self.closed:
+            if self.closed or self.closed_real:
                 return
-            self.closed = True
-            for r in self.reqs:
-                if r.state == "out":
-                    r.state = "closed"
-            if self.cur is not None:
-                self.exp_closed_conns.add(self.cur.cid)
-                self.close_expected = False
-            else:
-                self.close_expected = True
-            self.connecting = False
-            self.backoff_due = None
+            self.closed_real = True
+            self._model_close()
             d = self.bc.close()
             self.close_watch = simnet.Watch(d, w, "close")
             self.close_watch.silence()
@@ -440,6 +458,20 @@ class BCEngine(Engine):
         else:
             w.process(ev)
 
+    def _model_close(self):
+        """what close() means for the model (the caller performs the real close())"""
+        self.closed = True
+        for r in self.reqs:
+            if r.state == "out":
+                r.state = "closed"
+        if self.cur is not None:
+            self.exp_closed_conns.add(self.cur.cid)
+            self.close_expected = False
+        else:
+            self.close_expected = True
+        self.connecting = False
+        self.backoff_due = None
+
     def _model_rx(self, c, chunk):
         """the model's own reassembly of the byte stream handed to the client"""
         if c.cid in self.rx_dead or c.cid not in self.rx:
@@ -465,6 +497,7 @@ class BCEngine(Engine):
             if hit:
                 hit[0].state = "ok"
                 hit[0].value = payload
+
                 if sum(1 for r in self.reqs if r.state == "out") >= 1:
                     self.labels.add("answer-with-others-outstanding")
                 first_out = [r for r in self.reqs if r.state == "out" and r.sent_conn == c.cid]
@@ -483,6 +516,10 @@ class BCEngine(Engine):
         from afkak.common import ClientError
 
         w = self.world
+        if self.reentrant_close_error is not None:
+            idx, e = self.reentrant_close_error
+            self.reentrant_close_error = None
+            self.note("C06.completes-with-own-response", "C06.close-from-callback-raised/%s" % type(e).__name__, "close() called from the callback of request #%d's response raised %r" % (idx, e))
         # 1. connection attempts made during this step
         new = w.attempt_log[self.seen_attempts:]
         self.seen_attempts = len(w.attempt_log)
